@@ -158,6 +158,7 @@ func runSSH(r *run) error {
 			c.both = true
 			return c
 		}(),
+		mk("cert-authority-line", "cert-authority "+authLine(keys[5])+" ca\n"+`cert-authority,no-pty `+authLine(keys[4])+"\n"+authLine(keys[1])+"\n", keys[5].name, keys[4].name, keys[1].name),
 		mk("with-options", `command="x",no-pty `+authLine(keys[2])+" carol\n"+authLine(keys[5])+"\n", keys[2].name, keys[5].name),
 	}
 	hostKey := filepath.Join(base, "hostkey")
@@ -204,6 +205,25 @@ func runSSH(r *run) error {
 					admitted = cl
 				} else {
 					cl.Close()
+				}
+			}
+		}
+		if lc.name == "cert-authority-line" {
+			// a certificate for an unlisted key that merely names the listed authority as its issuer (junk signature)
+			for _, k := range []sshKey{keys[0], keys[3]} {
+				cert := &ssh.Certificate{Key: k.signer.PublicKey(), CertType: ssh.UserCert, KeyId: "forged", ValidPrincipals: []string{"anyone"},
+					ValidBefore: ssh.CertTimeInfinity, SignatureKey: keys[5].signer.PublicKey(),
+					Signature: &ssh.Signature{Format: keys[5].signer.PublicKey().Type(), Blob: bytes.Repeat([]byte{0x42}, 96)}}
+				cs, cerr := ssh.NewCertSigner(cert, k.signer)
+				if cerr != nil {
+					continue
+				}
+				cl, derr := sshDial(addr, sshKey{"forged-cert-" + k.name, cs})
+				r.count(fmt.Sprintf("handshake/%s/forged-certificate-admitted=%v", lc.name, derr == nil))
+				r.emit("sshkey", "k-forged-"+k.name, []string{"0", "0"}, b01(derr == nil), true)
+				if derr == nil {
+					cl.Close()
+					r.oracleFail("ssh-forged-cert-"+k.name, "an unlisted key presenting a certificate with a junk signature was admitted on an authorised listener", map[string]any{"authorized_keys": lc.file})
 				}
 			}
 		}
